@@ -3,10 +3,11 @@
 # scratch copy of /repo under /tmp, all quick checks are run against the copy (ZOG_REPO), the copy is removed. Output: selftest/matrix.tsv
 cd "$(dirname "$0")/.."; ROOT="$(pwd)"
 JOBS="${1:-4}"
-IDS=$(python3 -c "import json;print(' '.join(c['property_id'] for c in json.load(open('MANIFEST.json'))['checks']))")
+IDS="${IDS:-$(python3 -c "import json;print(' '.join(c['property_id'] for c in json.load(open('MANIFEST.json'))['checks']))")}"
+OUTFILE="${OUTFILE:-selftest/matrix.tsv}"
 one() {
   patch="$1"; name="$2"
-  W="/tmp/mx-$name"; rm -rf "$W"; mkdir -p "$W"
+  W="/tmp/mx-${name//:/-}"; rm -rf "$W"; mkdir -p "$W"
   git -C /repo worktree add -q --detach "$W/repo" HEAD || { echo -e "$name\tERROR worktree"; return; }
   ( cd "$W/repo" && (git apply --3way "$patch" 2>/dev/null || git apply "$patch") ) || { echo -e "$name\tERROR apply"; git -C /repo worktree remove --force "$W/repo"; rm -rf "$W"; return; }
   res=""
@@ -21,5 +22,5 @@ export -f one; export IDS ROOT
 {
   for d in seeded/*/; do n=$(basename $d); echo "$ROOT/seeded/$n/patch.diff seeded:$n"; done
   for f in selftest/reverts/*.diff; do n=$(basename $f .diff); echo "$ROOT/$f revert:$n"; done
-} | xargs -P "$JOBS" -L 1 bash -c 'one "$0" "$1"' | sort > selftest/matrix.tsv
-cat selftest/matrix.tsv
+} | xargs -P "$JOBS" -L 1 bash -c 'one "$0" "$1"' | sort > "$OUTFILE"
+cat "$OUTFILE"
